@@ -23,6 +23,8 @@ func main() {
 		cmdVerify(os.Args[2:])
 	case "check":
 		cmdCheck(os.Args[2:])
+	case "selftest":
+		cmdSelftest(os.Args[2:])
 	default:
 		fmt.Fprintln(os.Stderr, "unknown command", os.Args[1])
 		os.Exit(2)
@@ -207,4 +209,89 @@ func cmdVerify(args []string) {
 func cmdCheck(args []string) {
 	fmt.Fprintln(os.Stderr, "check: not yet implemented")
 	os.Exit(2)
+}
+
+// cmdSelftest verifies the engine's own test module: clauses whose label starts
+// with "bad" must not be proved, every other obligation must be.
+func cmdSelftest(args []string) {
+	fs := flag.NewFlagSet("selftest", flag.ExitOnError)
+	dir := fs.String("repo", filepath.Join(verifDir(), "govc", "testdata", "mod"), "test module")
+	only := fs.String("fn", "", "only these functions")
+	verbose := fs.Bool("v", false, "verbose")
+	fs.Parse(args)
+	p, err := loadProg(*dir, []string{"./..."})
+	if err != nil {
+		fmt.Fprintln(os.Stderr, err)
+		os.Exit(2)
+	}
+	if err := p.loadContracts("/nonexistent"); err != nil {
+		fmt.Fprintln(os.Stderr, "contract error:", err)
+		os.Exit(2)
+	}
+	fns := p.allFuncs()
+	var keys []string
+	for k, c := range p.contracts {
+		if !c.Extern && (*only == "" || strings.Contains(","+*only+",", ","+k+",")) {
+			keys = append(keys, k)
+		}
+	}
+	sort.Strings(keys)
+	var results []*FuncResult
+	bad := 0
+	for _, k := range keys {
+		fn := fns[k]
+		if fn == nil {
+			fmt.Printf("NO-FUNCTION %s\n", k)
+			bad++
+			continue
+		}
+		results = append(results, p.verifyFunc(fn, p.contracts[k]))
+	}
+	out, _ := os.MkdirTemp("", "govc-selftest")
+	defer os.RemoveAll(out)
+	if *verbose {
+		out = "/tmp/govc-selftest"
+	}
+	runObligations(results, out, 8, 0, false)
+	n := 0
+	for _, r := range results {
+		if r.Err != "" {
+			fmt.Printf("REJECTED %s: %s\n", r.Key, r.Err)
+			bad++
+			continue
+		}
+		for _, e := range r.VC.errs {
+			fmt.Printf("CONTRACT-ERROR %s: %s\n", r.Key, e)
+			bad++
+		}
+		badFailed := map[string]bool{}
+		for _, o := range r.VC.obls {
+			if strings.Contains(o.Name, "[bad") && o.Result.Status != "unsat" {
+				badFailed[strings.SplitN(o.Name, "@", 2)[0]] = true
+			}
+		}
+		for _, o := range r.VC.obls {
+			n++
+			st := o.Result.Status
+			expectFail := strings.Contains(o.Name, "[bad")
+			ok := st == "unsat"
+			if o.Cover {
+				ok = st != "unsat"
+			} else if expectFail {
+				ok = badFailed[strings.SplitN(o.Name, "@", 2)[0]]
+			}
+			if !ok || *verbose {
+				tag := "ok  "
+				if !ok {
+					tag = "FAIL"
+					bad++
+				}
+				fmt.Printf("%s %-8s %-60s %s %dms [%s] %s\n", tag, st, o.Name, o.Result.Solver, o.Result.Millis, o.Pos, strings.ReplaceAll(o.Result.Output, "\n", " "))
+			}
+		}
+	}
+	fmt.Printf("selftest: %d functions, %d obligations, %d mismatches\n", len(results), n, bad)
+	if bad > 0 {
+		os.Exit(1)
+	}
 }
